@@ -21,33 +21,52 @@ func main() {
 	r := hlib.NewRng(cfg.Seed)
 	for i := 0; i < cfg.N; i++ {
 		cr := r.Fork()
-		if r.Chance(1, 40) {
-			enumBoundaryCase(cr, s)
-			continue
+		// a panic anywhere while a case is built (derivation steps, observations) is a panic of the library on
+		// ordinary use: it is reported with the family as its input, the engine carries on
+		family := ""
+		run := func() {
+			if r.Chance(1, 40) {
+				family = "enum boundary"
+				enumBoundaryCase(cr, s)
+				return
+			}
+			if r.Chance(1, 12) {
+				family = "groupby+aggregate"
+				aggCase(cr, s)
+				return
+			}
+			if r.Chance(1, 60) {
+				family = "duplicate names"
+				dupNamesCase(cr, s)
+				return
+			}
+			switch k := r.Intn(22); {
+			case k < 8:
+				family = "filter"
+				filterCase(cr, s)
+			case k < 11:
+				family = "projection"
+				projCase(cr, s)
+			case k < 15:
+				family = "apply"
+				applyCase(cr, s)
+			case k < 17:
+				family = "eval"
+				evalCase(cr, s)
+			case k < 18:
+				family = "eval (plain context)"
+				plainEvalCase(cr, s)
+			case k < 20:
+				family = "equals"
+				equalsCase(cr, s)
+			default:
+				family = "new"
+				newCase(cr, s)
+			}
 		}
-		if r.Chance(1, 12) {
-			aggCase(cr, s)
-			continue
-		}
-		if r.Chance(1, 60) {
-			dupNamesCase(cr, s)
-			continue
-		}
-		switch k := r.Intn(22); {
-		case k < 8:
-			filterCase(cr, s)
-		case k < 11:
-			projCase(cr, s)
-		case k < 15:
-			applyCase(cr, s)
-		case k < 17:
-			evalCase(cr, s)
-		case k < 18:
-			plainEvalCase(cr, s)
-		case k < 20:
-			equalsCase(cr, s)
-		default:
-			newCase(cr, s)
+		if p, v := hlib.Recover(run); p {
+			s.Fail(s.NextID(), fmt.Sprintf("the library panicked while a %s case was prepared from error-free frames: %v", family, v),
+				map[string]interface{}{"family": family, "case_number": i, "seed": cfg.Seed}, "")
 		}
 	}
 	s.Finish()
